@@ -986,7 +986,7 @@ func checkCase(c *Case, limit time.Duration) (res Result, hung bool) {
 		} else if c.Expect.Ok {
 			if !o.ok {
 				fail("unexpected-error", o.kind+": "+o.errMsg, want)
-			} else if !c.Expect.NoOut && o.out != want {
+			} else if !c.Expect.NoOut && o.out != want && !(r.Alt != nil && o.out == textOf(*r.Alt, r.Pads, false)) {
 				fail("output", o.out, want)
 			}
 		} else {
